@@ -1706,6 +1706,10 @@ class OR(LogicalOperator, ABC):
         if child is self.left:
             if when_false or (when_false is None):
                 required_vars.update(self.right._unique_variables_)
+                # A false left output is what the right branch is evaluated on: it must stay distinct on every variable
+                # the right branch concludes about, not only on those its condition reads.
+                for conc in self.right._conclusion_.union(self.right._conclusions_of_all_descendants_):
+                    required_vars.update(conc._unique_variables_)
                 when_iam = None
             else:
                 when_iam = True
